@@ -120,6 +120,12 @@ func (s *Sched) AtStep(k int, fn func()) {
 
 var cur atomic.Pointer[Sched]
 
+// Progress counts scheduler steps of all runs of this process. The worker's
+// wall-clock watchdog (the one place where real time is read) uses it to tell
+// a CPU loop in the code under test - no step for a long time - from a run
+// that is merely slow on a loaded machine.
+var Progress atomic.Int64
+
 // Cur returns the scheduler attached to this process, or nil.
 func Cur() *Sched { return cur.Load() }
 
@@ -381,6 +387,7 @@ func (s *Sched) Run() {
 		s.running = pick
 		pick.state = stRunning
 		s.Steps++
+		Progress.Add(1)
 		s.mixInt(pick.ID)
 		s.mix(pick.site)
 		if s.Logging {
